@@ -590,6 +590,18 @@ impl Observer {
     }
 }
 
+/// One-shot page audit of an open database, in the token format of the SQL cases (every page reported): used by the crash
+/// engine on recovered images; judged by the same Lean checker (`stepObs` on an empty state).
+pub(crate) fn one_shot_page_audit(db: &Database, index_cols: &[(String, String)]) -> String {
+    let mut o = Observer {
+        prev: BTreeMap::new(),
+        prev_keys: BTreeMap::new(),
+        cache: None,
+        index_cols: index_cols.iter().cloned().collect(),
+    };
+    o.step(db)
+}
+
 fn exec_sql(line: &str) -> String {
     let Some((head, body)) = line.split_once(" | ") else { return "bad-op".into() };
     let Some((ps, cache)) = parse_params(head, "sql") else { return "bad-op".into() };
